@@ -202,6 +202,36 @@ def run(ctx):
         ctx.extra['vm_compute_shard'] = dict(cases=len(shard), differences_vs_extracted=bad)
         if bad:
             ctx.disagree('extraction vs vm_compute', differences=bad)
+    # trees nested far deeper than the interpreter's recursion limit: equality, hashing, copying, pickling and traversal must still
+    # answer (the implementation uses explicit stacks throughout)
+    import copy as copy_
+    import pickle as pickle_
+
+    def chain(depth, leaf):
+        t = impl.Node(leaf)
+        for _ in range(depth):
+            t = impl.Node('f', t, 'k')
+        return t
+    for depth in ((400, 1200, 5000) if ctx.thorough else (400, 3000)):
+        a, b, c = chain(depth, 'x'), chain(depth, 'x'), chain(depth, 'y')
+        ctx.case(['deep', depth], True)
+        probes = [('a == b for two equal trees built separately', lambda: a == b, True), ('b == a', lambda: b == a, True),
+                  ('a == c for trees that differ in the innermost leaf', lambda: a == c, False),
+                  ('hash(a) == hash(b)', lambda: hash(a) == hash(b), True),
+                  ('deepcopy(a) == a', lambda: copy_.deepcopy(a) == a, True),
+                  ('pickle round trip == a', lambda: pickle_.loads(pickle_.dumps(a)) == a, True),
+                  ('count_nodes', lambda: impl.nodes.count_nodes(a), 2 * depth + depth + 1),
+                  ('dfs visits every node once', lambda: len(list(impl.nodes.dfs(a))), 3 * depth + 1),
+                  ('bfs visits every node once', lambda: len(list(impl.nodes.bfs([a]))), 3 * depth + 1)]
+        for what, f, want in probes:
+            try:
+                with common.time_limit(30):
+                    got = f()
+            except Exception as e:  # noqa
+                got = f'exception {type(e).__name__}'
+            if got != want:
+                ctx.violation('impl-violation', input=f'(f (f ... (f x k) ... k) k) nested {depth} times', operation=what,
+                              observed=repr(got)[:200], expected=repr(want))
     ctx.assumptions += [
         'hash functions are arbitrary in the theorems (Section variables); the executed model uses a fixed polynomial hash',
         'pickling modelled at record level (struct packing and UTF-8 payload not modelled; exercised directly on the implementation)',
